@@ -73,7 +73,7 @@ let dispatch f args = match f, args with
   | "spec_forkid", [hf; fk; v; ins; outs; lock; uns; s; idx; amount; ht] ->
     let t = to_core (parse_tx v ins outs lock uns) in
     over_hts ht (fun h -> show_option show_bytes (forkid_preimage (hash_of hf) (arg_n fk) (arg_bytes s) t (arg_nat idx) (arg_n amount) h))
-  | "excl_sig_pattern", [sg] -> show_bool (sig_pattern_excluded (arg_bytes sg))
+  | "plain_push", [sg] -> show_outcome show_bytes (plain_push (arg_bytes sg))
   | "excl_rewalk", [sub; s] -> show_bool (rewalk_excluded (arg_bytes sub) (arg_bytes s))
   | _ -> failwith ("unknown function " ^ f)
 let () = main_loop dispatch
